@@ -148,7 +148,7 @@ def build(template_path, out_path, canary=False, repo=None, mutate=None):
                             cur = {"op": "ret", "name": arg, "text": ""}
                         elif op == "sig":
                             cur = {"op": "sig", "text": ""}
-                        elif op in ("body_start", "attr", "every_loop", "abstract", "before_tail"):
+                        elif op in ("body_start", "attr", "every_loop", "abstract", "before_tail", "body_end"):
                             cur = {"op": op, "text": ""}
                         elif op == "use":
                             if arg not in templates:
